@@ -45,7 +45,7 @@ MANIFEST = dict(
           "The pre-repair loop is refuted in Coq on the float instance (x / 49x runs into the cap). The same Gallina function is run against the "
           "implementation (Rat vs Qc exact; f64/Complex bitwise, outcome compared exactly) on all dividend degrees 0..10 x divisor degrees 0..6, on dividends related to the divisor "
           "(equal, negated, scaled, shifted, squared; the same object: u.polydiv(&u)), special leading coefficients, signed-zero divisors and exact Complex divisions off the real axis, and "
-          "an exact recomputation of u - (q*v + r) searches for a failing input (exact over Rat, <= 1e-10*scale over floats)."),
+          "an exact recomputation of u - (q*v + r) searches for a failing input (exact over Rat, <= 1e-10*scale over floats, and exact again for integer-valued f64 operands whose schoolbook long division stays in the integers below 2^53: family div-exactdiv-badlead, divisors led by d with fl(d*fl(1/d)) != 1)."),
     note="The size of the floating-point residual is a theorem in the standard rounding model and at binary64 absent overflow/underflow, and searched on the implementation; the exact-arithmetic identity and float termination are theorems.",
     technique="Coq proof (any arithmetic / any field) + legacy refutation by vm_compute on primitive floats + differential execution + exact residual search",
     design="7 (C12)")
@@ -162,6 +162,18 @@ def generate(rng, tier):
             v[-1] = Fraction(g.choice([1, -1, 2])); v[g.below(lv - 1)] = Fraction(g.choice([1, -1, 2, -2, 3]))
             cases.append(mk_div(fam, [conv_to(fam, a) for a in u], [conv_to(fam, a) for a in v],
                                 "div-sparse-" + fam, nontrivial=(lu >= lv)))
+    # exact integer divisions over a divisor whose leading coefficient d has fl(fl(1/d) * d) != 1 (own rng stream): every quotient
+    # term lead(r) / lead(v) is an exact integer division and every product and difference is an integer below 2^53, so each
+    # float operation of the loop is exact and u = q*v + r must hold EXACTLY (judge demands it); a quotient term formed as
+    # lead(r) * (1 / lead(v)) is not that division (seeded mutation C12-12)
+    g = rng.fork("exactdiv-badlead")
+    for _ in range(40 if tier == "thorough" else 12):
+        lq, lv = g.range(1, 5), g.range(1, 4)
+        q0 = [Fraction(small_int(g, -5, 5)) for _ in range(lq)]; q0[-1] = Fraction(g.choice([1, -1, 2, 3, 7]))
+        v = [Fraction(small_int(g, -9, 9)) for _ in range(lv)]; v[-1] = Fraction(g.choice(BAD_LEAD) * g.choice([1, -1]))
+        r0 = [Fraction(small_int(g, -6, 6)) for _ in range(g.range(0, lv - 1))]
+        u = ref_add(ref_mul(q0, v), r0)
+        cases.append(mk_div('f64int', [float(a) for a in u], [float(a) for a in v], "div-exactdiv-badlead", nontrivial=True))
     cases += special_structure_cases(rng, tier)
     cases += same_object_pairs(cases)
     return rng.fork("order").shuffle(cases)          # balanced coqc shards
@@ -369,10 +381,36 @@ def judge(st, elt, U, V, who):
     vmax = max([mag(a) for a in V])
     scale = max([mag(a) for a in U] + [0]) + sum(mag(a) for a in Qp) * vmax * (2 if elt == 'cplx' else 1) + max([mag(a) for a in R] + [0])
     worst = max([mag(a) for a in resid] + [0])
+    if elt == 'f64' and worst != 0:
+        ex = _exact_int_division(U, V)
+        if ex is not None:
+            return code, who + ("an exact integer division (every quotient term an integer, every intermediate an integer below 2^53: each float operation "
+                                "of the long division is exact) must satisfy u = q*v + r exactly; exact q=%s r=%s, got q=%s r=%s" % (
+                                    [str(a) for a in ex[0]], [str(a) for a in ex[1]], [repr(float(a)) for a in Qp], [repr(float(a)) for a in R]))
     if not (worst <= Fraction(1, 10 ** 10) * scale):
         return code, who + "u - (q*v + r) has a coefficient of size %.3e, above 1e-10 * scale (scale %.3e): q=%s r=%s" % (
             float(worst), float(scale), [float(mag(a)) for a in Qp], [float(mag(a)) for a in R])
     return code, None
+
+def _exact_int_division(U, V):
+    """(q, r) when U, V are integer polynomials, lead(V) != 0, len(U) >= len(V) and schoolbook long division stays in the integers with
+    every intermediate below 2^53 in magnitude; None otherwise (then only the rounding-accuracy clause applies)"""
+    try:
+        if not V or V[-1] == 0 or len(U) < len(V): return None
+        if any(Fraction(a).denominator != 1 for a in list(U) + list(V)): return None
+        r = [Fraction(a) for a in U]; q = [Fraction(0)] * (len(U) - len(V) + 1); lim = Fraction(2 ** 53)
+        for k in range(len(U) - len(V), -1, -1):
+            t = r[k + len(V) - 1] / Fraction(V[-1])
+            if t.denominator != 1 or abs(t) >= lim: return None
+            q[k] = t
+            for i, a in enumerate(V):
+                pr = t * Fraction(a)
+                if abs(pr) >= lim: return None
+                r[k + i] -= pr
+                if abs(r[k + i]) >= lim: return None
+        return q, r[:len(V) - 1]
+    except (TypeError, ValueError):
+        return None
 
 def oracle(case, items):
     kind, uv = case_vals(case)
